@@ -232,6 +232,9 @@ func codecUnmarshal(must, lp bool) intrinsic {
 		hs := "(Array Int " + es + ")"
 		h := ft.stateGet(st, "H|"+es, hs)
 		nh := ft.fresh("h", hs)
+		// gogoproto's generated Unmarshal does not reset the target: repeated/bytes fields are appended to or reuse the
+		// backing array of what is already there. The contract therefore requires a zero-valued target.
+		ft.addObl(fr, "pre", fr.tag+"Unmarshal.zeroTarget", reach, "(= (select "+h+" "+ptr+") "+g.zero(elem)+")", "Unmarshal into a message that is not freshly zeroed merges/aliases old content", nil, nil)
 		decoded := fr.unflatten("("+unm+" "+bz+")", elem, st)
 		h = ft.stateGet(st, "H|"+es, hs)
 		if must {
